@@ -86,6 +86,9 @@ def mapSet [BEq κ] : List (κ × ν) → κ → ν → List (κ × ν)
 establish, not the code-level tie's); here the zero value comes out -/
 def idx [Inhabited α] (xs : List α) (i : Int) : α := if i < 0 then default else xs.getD i.toNat default
 
+/-- `xs[i] = v` on a slice. NOT represented: Go panics when `i` is out of range; here nothing changes -/
+def setIdx (xs : List α) (i : Int) (v : α) : List α := if i < 0 then xs else xs.set i.toNat v
+
 /-- `s[:i]` / `s[i:]`, with the same caveat (out-of-range bounds clamp instead of panicking) -/
 def sliceTo (xs : List α) (i : Int) : List α := xs.take i.toNat
 def sliceFrom (xs : List α) (i : Int) : List α := xs.drop i.toNat
